@@ -188,3 +188,118 @@ def interp_unit(alpha_kind):
 
 for _ak in ("absent", "#", "threshold", "hex", "##"):
     interp_unit(_ak)
+
+
+# ------------------------------------------------------------------------------------------------ the style part (`+style`)
+# documented sub-grammars (docs/source/guide/formatting.rst, the style-specific sections):
+#   kitty   [method][z-index][mix][compress]   method L|W,   z-index z<integer>,  mix m0|m1,  compress c0..c9
+#   iterm2  [method][mix][compress]            method L|W|A, mix m0|m1,  compress c0..c9
+STYLE_GRAMMARS = {
+    "KittyImage": ("image/kitty.py", [("method", "[LW]"), ("z_index", r"z-?\d+"), ("mix", "m[01]"), ("compress", "c[0-9]")]),
+    "ITerm2Image": ("image/iterm2.py", [("method", "[LWA]"), ("mix", "m[01]"), ("compress", "c[0-9]")]),
+}
+
+
+def style_unit(cname):
+    @unit("C19", f"style:{cname}._check_style_format_spec+_get_style_format_spec")
+    def u(ctx, cname=cname):
+        from pyvc import rxops
+        rel, doc = STYLE_GRAMMARS[cname]
+        eng = ctx.engine(f"C19/style[{cname}]", "C19")
+        eng.default_replay = "C19.style"
+        rxops.install(eng)
+        nd = eng.unicode_nd
+        st = State()
+        spec = z3.String("style_spec")
+        real = ctx.class_const(cname, "_FORMAT_SPEC")
+        if not isinstance(real, tuple):
+            raise Unsupported("_FORMAT_SPEC is not a tuple of patterns")
+        pats = tuple(rxops.make_pattern(st, p[1], p[2], nd) for p in real)
+        # the documented grammar: optional fields in the documented order; `<integer>` = an optional minus sign and decimal digits
+        G = z3.Concat(*[z3.Option(rx.to_z3re(src, 0, nd=nd)) for _, src in doc]) if len(doc) > 1 else z3.Option(rx.to_z3re(doc[0][1], 0, nd=nd))
+        mod = ctx.ns({"KittyImage": "term_image.image.kitty", "ITerm2Image": "term_image.image.iterm2"}[cname])
+        for k_ in ("LINES", "WHOLE", "ANIM"):
+            if k_ in mod.d:
+                eng.genv[k_] = mod.d[k_]
+        eng.exc_parents["StyleError"] = "TermImageError"
+        eng.genv["StyleError"] = ClassV("StyleError")
+        cls = st.new("imgcls", {"_FORMAT_SPEC": pats, "__name__": cname})
+        get_spec = inline(ctx.fn(COMMON, "BaseImage._get_style_format_spec"), eng)
+        base_check = inline(ctx.fn(COMMON, "BaseImage._check_style_format_spec"), eng)
+
+        def m_get(e, s, recv, a, k):
+            outs = []
+            for v, s2 in e.call(get_spec, (recv,) + tuple(a), k, s):
+                # contract of _get_style_format_spec, checked here on its real body: nothing of the text is skipped or reordered
+                ok = isinstance(v, tuple) and len(v) == 2 and isinstance(v[1], Ref) and isinstance(s2.H(v[1]), list) and len(s2.H(v[1])) == len(pats)
+                if not ok:
+                    e.oblige("_get_style_format_spec:returns(parent,[one-entry-per-field])", s2, False, kind="post")
+                    continue
+                parent, fields = v[0], list(s2.H(v[1]))
+                txt = [(z3.StringVal("") if f is None else f) for f in fields]
+                if not all(is_sym(t) and z3.is_string(t) for t in txt) or not (isinstance(parent, str) or (is_sym(parent) and z3.is_string(parent))):
+                    raise Unsupported("field values of another shape")
+                par = z3.StringVal(parent) if isinstance(parent, str) else parent
+                whole = z3.Concat(par, *txt)
+                e.oblige("_get_style_format_spec:parent+fields-in-order=the-whole-text(nothing-skipped)", s2, a[0] == whole, kind="post")
+                e.oblige("_get_style_format_spec:each-field-is-a-match-of-its-own-pattern-or-absent", s2,
+                         z3.And(*[z3.InRe(f, s2.H(p)["@re"]) for f, p in zip(fields, pats) if f is not None]) if any(f is not None for f in fields) else z3.BoolVal(True), kind="post")
+                s2 = e.fork(s2)
+                s2.ghost["fields"] = fields
+                outs.append((v, s2))
+            return outs
+        eng.methods[("imgcls", "_get_style_format_spec")] = m_get
+        eng.genv["super"] = Fn(lambda e, s, a, k: [(Rec("super", {}), s)])
+        eng.attrs[("super", "_check_style_format_spec")] = lambda e, s, v: [(Fn(lambda e2, s2, a, k: e2.call(base_check, (cls,) + tuple(a), k, s2)), s)]
+
+        def m_args(e, s, recv, a, k):
+            s = e.fork(s)
+            s.ghost["args"] = dict(s.H(a[0])["@items"])
+            return [(Rec("checked-style-args", {}), s)]        # validation of the values (_check_style_args) is a separate contract
+        eng.methods[("imgcls", "_check_style_args")] = m_args
+        st.env.update(cls=cls, spec=spec, original=z3.String("original_spec"))
+        outs = run_function(eng, ctx.fn(rel, f"{cname}._check_style_format_spec"), st)
+        names = [n for n, _ in doc]
+        for kind, val, s in outs:
+            if kind == "raise":
+                eng.oblige(f"rejected({val.cls})-only-if-not-a-sentence-of-the-style-grammar", s, And(val.cls == "StyleError", z3.Not(z3.InRe(spec, G))), kind="raise")
+                continue
+            eng.oblige("accepted-only-if-a-sentence-of-the-style-grammar", s, z3.InRe(spec, G), kind="post")
+            fields, args = s.ghost.get("fields"), s.ghost.get("args")
+            if fields is None or args is None or len(fields) != len(names):
+                eng.oblige("style-arguments-built-from-the-recognised-fields", s, False, kind="post")
+                continue
+            for nm, f in zip(names, fields):
+                if f is None:
+                    eng.oblige(f"absent-{nm}-gives-no-argument", s, nm not in args, kind="post")
+                    continue
+                if nm not in args:
+                    eng.oblige(f"{nm}-denotes-its-argument", s, False, kind="post")
+                    continue
+                got = args[nm]
+                if nm == "method":
+                    exp = {"L": eng.genv.get("LINES"), "W": eng.genv.get("WHOLE"), "A": eng.genv.get("ANIM")}
+                    goal = And(*[Implies(f == z3.StringVal(ch), z3.BoolVal(got == v_)) for ch, v_ in exp.items() if v_ is not None])
+                elif nm == "z_index":
+                    ps = [p_ for p_, _ in (rxops.pieces_of(s, f) or [])]
+                    if len(ps) < 2:
+                        raise Unsupported("z-index field without its pieces")
+                    cat = lambda xs: z3.Concat(*xs) if len(xs) > 1 else xs[0] if xs else z3.StringVal("")
+                    body = cat(ps[1:])
+                    neg = z3.PrefixOf(z3.StringVal("-"), body)
+                    digits = z3.If(neg, cat(ps[2:]), body)
+                    ascii_ = z3.InRe(digits, z3.Plus(z3.Range("0", "9")))
+                    goal = And(z3.is_int(got), Implies(ascii_, got == z3.If(neg, -z3.StrToInt(digits), z3.StrToInt(digits)))) if is_sym(got) else False
+                elif nm == "mix":
+                    last = (rxops.pieces_of(s, f) or [(z3.SubString(f, z3.Length(f) - 1, 1), 1)])[-1][0]
+                    goal = Eq(got, last == z3.StringVal("1")) if is_sym(got) else False
+                else:
+                    last = (rxops.pieces_of(s, f) or [(z3.SubString(f, z3.Length(f) - 1, 1), 1)])[-1][0]
+                    goal = Eq(got, z3.StrToInt(last)) if is_sym(got) else False
+                eng.oblige(f"{nm}-denotes-its-argument", s, goal, kind="post")
+        return eng.obligations
+    return u
+
+
+for _c in STYLE_GRAMMARS:
+    style_unit(_c)
